@@ -22,7 +22,7 @@ import time
 ROOT = os.path.dirname(os.path.dirname(os.path.abspath(__file__)))
 REPO = os.environ.get("VERIF_REPO", "/repo")
 SPEC = os.path.join(ROOT, "spec")
-HARNESS = os.path.join(ROOT, "harness")
+HARNESS = os.environ.get("VERIF_HARNESS", os.path.join(ROOT, "harness"))      # (override: test a scratch worktree without touching /repo)
 VH = os.path.join(HARNESS, "target", "debug", "vh")
 PYDIR = os.path.join(ROOT, "py")
 NCPU = os.cpu_count() or 4
@@ -277,6 +277,13 @@ def known_findings(prop):
 
 
 def write_replay(prop, payload):
+    if os.environ.get("VERIF_HARNESS"):
+        d = os.path.join("/tmp", "seed_replays")
+        os.makedirs(d, exist_ok=True)
+        h = hashlib.sha1(json.dumps(payload, sort_keys=True, ensure_ascii=False).encode()).hexdigest()[:12]
+        path = os.path.join(d, "%s-%s.json" % (prop, h))
+        json.dump(payload, open(path, "w"), indent=1, ensure_ascii=False, sort_keys=True)
+        return path
     os.makedirs(os.path.join(ROOT, "replays"), exist_ok=True)
     h = hashlib.sha1(json.dumps(payload, sort_keys=True, ensure_ascii=False).encode()).hexdigest()[:12]
     path = os.path.join(ROOT, "replays", "%s-%s.json" % (prop, h))
@@ -363,8 +370,10 @@ class Check:
         cov.update(self.extra)
         ev = {"property_id": self.prop, "tier": self.tier, "seed": seed(), "level": "model_checking",
               "coverage": cov, "assumptions": self.assumptions, "wall_s": round(wall, 1), "violations": len(viol)}
-        os.makedirs(os.path.join(ROOT, "evidence"), exist_ok=True)
-        with open(os.path.join(ROOT, "evidence", self.prop + ".json"), "w") as f:
+        # evidence is only ever written for runs against /repo itself (bin/seedtest runs against a scratch worktree)
+        evdir = os.path.join(ROOT, "evidence") if not os.environ.get("VERIF_HARNESS") else os.path.join(scratch(), "evidence")
+        os.makedirs(evdir, exist_ok=True)
+        with open(os.path.join(evdir, self.prop + ".json"), "w") as f:
             json.dump(ev, f, indent=1, ensure_ascii=False)
         print("%s %s: %d evaluations, %d traces judged, %d TLC states, %d violations, %d known-finding hits, %.1fs"
               % (self.prop, self.tier, self.evaluations, self.traces, self.states, len(viol),
